@@ -410,7 +410,7 @@ pub fn run(ctx: &Ctx) -> (Report, PropertyMeta) {
     let r = run_cases(ctx, "sub", &cases, sub_outcome);
     report.exhaustive_parts.push(format!("4 six-call histories x 0..2 early peers x a join at every prefix position (plain, stalled between snapshot and registration and released 0..2 calls later) + one broken peer at every position: {} cases", cases.len()));
     report.merge(r);
-    let n = t.pick(6000, 200_000);
+    let n = t.pick(80_000, 2_000_000);
     let r = run_random(ctx, "sub", n, 40..=160, gen_sub, sub_outcome);
     report.sections.push(json!({"part": "random histories of subscribe/unsubscribe interleaved with joins (as separate actors, optionally stalled), actor steps, releases, one broken peer", "cases": n}));
     report.merge(r);
